@@ -96,6 +96,7 @@ class Translator:
             self.classes[alias] = self.classes[real]
         self.units = {}  # name -> coq text
         self.order = []
+        self.used_oracles = set()
         self.sigs = {}  # name -> (param tys, self ty, ret ty)
         self.layout_cache = {}
         self.inprogress = set()
@@ -369,7 +370,7 @@ class Translator:
             "From FV Require Import NumSys Py NumX Queue.",
             "Import ListNotations.",
             "Section Gen.",
-            "  Context {A : Arith}.",
+            "  Context {A : Arith}" + "".join(f" ({o} : num A -> num A)" for o in sorted(self.used_oracles)) + ".",
         ]
         for n in self.order:
             f, ln, q = self.sources[n]
@@ -1252,6 +1253,14 @@ class Frame:
             if isinstance(f.value, ast.Name) and f.value.id in self.tr.classes and f.value.id not in self.env:
                 # explicit base-class call  Base.method(self, ...)
                 return ("basecall", f.value.id, f.attr)
+            if isinstance(f.value, ast.Attribute) and isinstance(f.value.value, ast.Name) and f.value.value.id == "self" and isinstance(self.self, O):
+                # a call on an attribute declared as an ORACLE object (e.g. a frozen SciPy distribution): the method is an
+                # uninterpreted function, a section variable of the generated file
+                okey = (self.self.cls, f.value.attr, f.attr)
+                okey2 = (self.tr.spec.get("aliases", {}).get(self.self.cls, self.self.cls), f.value.attr, f.attr)
+                orc = self.tr.spec.get("oracles", {})
+                if okey in orc or okey2 in orc:
+                    return ("oracle", orc.get(okey, orc.get(okey2)))
             recv = self.ev(f.value)
             if isinstance(recv, O):
                 if self.tr.find(recv.cls, f.attr, kind="getter") and not self.tr.find(recv.cls, f.attr, kind="method"):
@@ -1311,7 +1320,7 @@ class Frame:
         if not isinstance(n, ast.Call):
             return False
         k = self.callee(n)
-        if k[0] in ("builtin", "lambdacall"):
+        if k[0] in ("builtin", "lambdacall", "oracle"):
             return False
         if k[0] in ("ctor", "basecall"):
             return True
@@ -1367,6 +1376,11 @@ class Frame:
             for kv, o in reversed(list(zip(keys[:-1], outs[:-1]))):
                 e = f"(if Z.eqb {key.e} {zlit(kv)} then {o.e} else {e})"
             return V(e, outs[0].ty)
+        if k[0] == "oracle":
+            if len(n.args) != 1 or n.keywords:
+                raise Unsupported("oracle call with other than one positional argument")
+            self.tr.used_oracles.add(k[1])
+            return V(f"({k[1]} {coerce(self.ev(n.args[0]), NUM).e})", NUM)
         if k[0] != "method":
             raise Unsupported(f"effectful call inside an expression: {ast.unparse(n)[:60]}")
         _, recv, meth, start = k
@@ -1446,8 +1460,10 @@ class Frame:
             elif a.ty != NONE:
                 raise Unsupported("np.random.seed argument")
             return V("tt", UNIT)
-        if name == "np.count_nonzero" and len(args) == 1 and args[0].ty == BOOL:
+        if name in ("np.count_nonzero", "np.sum") and len(args) == 1 and args[0].ty == BOOL and not n.keywords:
             return V(f"(b2z {args[0].e})", INT)
+        if name == "np.sum" and len(args) == 1 and args[0].ty in (INT, NUM) and not n.keywords:
+            return args[0]  # the sum of a scalar is the scalar
         raise Unsupported(f"builtin {name}")
 
     def isinstance_static(self, v, tnode):
